@@ -5,6 +5,7 @@ import (
 	"encoding/json"
 	"fmt"
 	"math/big"
+	"strconv"
 	"strings"
 
 	"pault.ag/go/debian/version"
@@ -111,6 +112,41 @@ func checkReject(scen string, in RejectIn) *mc.Violation {
 	// a string that was refused once is refused again (whatever the library remembers about it)
 	if again, err2 := parseVia(in.Via, in.Text); err2 == nil {
 		return mc.V(scen, "near-miss-rejected", in, "error ("+in.Class+") the second time too", fmt.Sprintf("accepted as %+v when the same string was parsed again", again), "class:"+in.Class)
+	}
+	// ... and whatever the receiver holds when the string arrives: a well-formed value, the pieces an earlier refusal of
+	// the same string (differently padded) may have left behind, or a hand-built value whose rendering is this very string
+	if in.Via == "control" || in.Via == "text" {
+		into := func(v *version.Version, s string) error {
+			if in.Via == "control" {
+				return v.UnmarshalControl(s)
+			}
+			return v.UnmarshalText([]byte(s))
+		}
+		t := strings.TrimSpace(in.Text)
+		recv := []version.Version{{Epoch: 7, Version: "7.7", Revision: "7"}, {Version: in.Text}, {Version: t}}
+		pieces := version.Version{Version: t}
+		if c := strings.Index(t, ":"); c >= 0 {
+			if e, err := strconv.ParseUint(t[:c], 10, 63); err == nil {
+				pieces.Epoch, pieces.Version = uint(e), t[c+1:]
+			}
+		}
+		if h := strings.LastIndex(pieces.Version, "-"); h >= 0 {
+			pieces.Version, pieces.Revision = pieces.Version[:h], pieces.Version[h+1:]
+		}
+		recv = append(recv, pieces)
+		var padded version.Version
+		into(&padded, "  "+in.Text+" ")
+		recv = append(recv, padded)
+		for _, r := range recv {
+			r0 := r
+			var e error
+			if p, msg := mc.Guard(func() { e = into(&r, in.Text) }); p {
+				return mc.V(scen, "parse-returns", in, "no panic", "panic: "+msg)
+			}
+			if e == nil {
+				return mc.V(scen, "near-miss-rejected", in, "error ("+in.Class+") whatever the receiver held", fmt.Sprintf("accepted as %+v by a receiver that held %+v", r, r0), "class:"+in.Class)
+			}
+		}
 	}
 	return nil
 }
